@@ -1,3 +1,19 @@
+/-
+C02 (decoders are total): proofs about the checked-index model of `readLookupList`,
+`readExtensionSubtable` and the dispatchers `readGsubSubtable` / `readGposSubtable`
+(`SfntV.Total.LookupList`, Model/TotalLookupList.lean).
+
+* no panic: `readLookupList_noPanic` (ALL bytes, ALL positions, any non-panicking subtable reader),
+  `readExtensionSubtable_noPanic`, `dispatch_noPanic` / `readGsubSubtable_noPanic` /
+  `readGposSubtable_noPanic` (an unknown (type, format) is an error, never a nil call), and the
+  compositions `readLookupList_gsub_noPanic`, `readLookupList_gpos_noPanic`, `readLookupList_hook_noPanic`.
+* cost, the TRUE bound: `readLookupList_cost'`: steps, alloc ≤ |b| + 6000·(C + K + 3)
+  (`readLookupList_cost`: ≤ 2·|b| + 6000·(C + (K + 3))), NOT linear in |b|: `lookup_alias_cost`
+  (n ≤ 3000 aliased offsets decode ONE subtable n times), `readLookupList_cost_not_linear`.
+  The list reader itself (tied instance) is linear: `readLookupList_hook_cost`.
+* finding: `ext_ext_survives` (an extension record resolving to an extension record is accepted and
+  left in the lookup; its `apply` panics), `dispatch_key_wraps` (uint16 wrap of the reader key).
+-/
 import SfntV.Model.TotalLookupList
 import SfntV.Proofs.TotalGdef
 
@@ -489,5 +505,353 @@ theorem readLookupList_cost (b : Bytes) (pos : Nat) (r : List (Lookup σ)) (c : 
   omega
 
 end cost
+
+/-! ## the finding: aliased lookup offsets (known finding C02-gsub-lookup-alias) -/
+
+theorem pure_bind_ok {α β : Type} (a : α) (f : α → Outcome β) : (pure a >>= f) = f a := rfl
+
+theorem rd16_at {site : String} {b : Bytes} {pos : Nat} {hi lo : UInt8}
+    (h0 : b[pos]? = some hi) (h1 : b[pos + 1]? = some lo) : rd16 site b pos = .ok (be hi lo) := by
+  obtain ⟨hlt, _⟩ := List.getElem?_eq_some_iff.mp h1
+  unfold rd16 readBytes
+  rw [if_neg (by omega), if_pos (by omega), ok_bind]
+  unfold w16 idx
+  simp only [List.getElem?_take, List.getElem?_drop, Nat.add_zero, h0, h1]
+  rfl
+
+/-- `hi lo` repeated `n` times -/
+def rep2 (hi lo : UInt8) : Nat → Bytes
+  | 0 => []
+  | n+1 => hi :: lo :: rep2 hi lo n
+
+theorem rep2_length (hi lo : UInt8) : ∀ n, (rep2 hi lo n).length = 2 * n
+  | 0 => rfl
+  | n+1 => by simp only [rep2, List.length_cons, rep2_length hi lo n]; omega
+
+theorem rep2_get (hi lo : UInt8) : ∀ (n j : Nat), j < n →
+    (rep2 hi lo n)[2 * j]? = some hi ∧ (rep2 hi lo n)[2 * j + 1]? = some lo
+  | 0, _, h => by omega
+  | n+1, 0, _ => by simp [rep2]
+  | n+1, j+1, h => by
+    have ih := rep2_get hi lo n j (by omega)
+    have e1 : 2 * (j + 1) = 2 * j + 1 + 1 := by omega
+    rw [e1]
+    simp only [rep2, List.getElem?_cons_succ]
+    exact ih
+
+theorem readU16s_const (site : String) (b : Bytes) (hi lo : UInt8) : ∀ (n pos : Nat),
+    (∀ j, j < n → b[pos + 2 * j]? = some hi ∧ b[pos + 2 * j + 1]? = some lo) →
+    readU16s site b n pos = .ok (List.replicate n (be hi lo), ⟨n, 0⟩)
+  | 0, _, _ => rfl
+  | n+1, pos, h => by
+    unfold readU16s
+    have h0 := h 0 (by omega)
+    rw [rd16_at (by simpa using h0.1) (by simpa using h0.2), ok_bind]
+    rw [readU16s_const site b hi lo n (pos + 2) (fun j hj => by
+      have := h (j + 1) (by omega)
+      have e : pos + 2 * (j + 1) = pos + 2 + 2 * j := by omega
+      rw [e] at this
+      exact this), ok_bind]
+    rfl
+
+/-- the aliased record: lookup type 1, no flags, one subtable at offset 8 -/
+def aliasRec : Bytes := [0, 1, 0, 0, 0, 1, 0, 8]
+
+theorem readLookup_aliasRec {σ : Type} (sr : Reader σ) (b : Bytes) (lp numL numS : Nat)
+    (prev : List Nat) (v : SubV σ) (d : Cost) (hv : ¬ v.isExt)
+    (hb : ∀ k (hk : k < 8), b[lp + k]? = some aliasRec[k])
+    (hbud : numL + numS + 2 ≤ 6000) (hsr : sr 1 (lp + 8) = .ok (v, d)) :
+    readLookup sr b lp numL numS prev =
+      .ok ((⟨1, 0, 0, [v]⟩, 1, [8]), ⟨3 + d.steps, 4 + d.alloc⟩) := by
+  have h0 := hb 0 (by omega)
+  have h1 := hb 1 (by omega)
+  have h2 := hb 2 (by omega)
+  have h3 := hb 3 (by omega)
+  have h4 := hb 4 (by omega)
+  have h5 := hb 5 (by omega)
+  have h6 := hb 6 (by omega)
+  have h7 := hb 7 (by omega)
+  simp only [aliasRec, List.getElem_cons_zero, List.getElem_cons_succ, Nat.add_zero] at h0 h1 h2 h3 h4 h5 h6 h7
+  obtain ⟨hlt, _⟩ := List.getElem?_eq_some_iff.mp h7
+  unfold readLookup readBytes
+  rw [if_neg (by omega), if_pos (by omega), ok_bind]
+  have e0 : w16 "lookup.go:196#buf[0],buf[1]" (List.take 6 (List.drop lp b)) 0 = .ok 1 := by
+    unfold w16 idx
+    simp only [List.getElem?_take, List.getElem?_drop, Nat.add_zero, h0, h1]
+    rfl
+  have e2 : w16 "lookup.go:197#buf[2],buf[3]" (List.take 6 (List.drop lp b)) 2 = .ok 0 := by
+    unfold w16 idx
+    simp only [List.getElem?_take, List.getElem?_drop, h2, h3]
+    rfl
+  have e4 : w16 "lookup.go:198#buf[4],buf[5]" (List.take 6 (List.drop lp b)) 4 = .ok 1 := by
+    unfold w16 idx
+    simp only [List.getElem?_take, List.getElem?_drop, h4, h5]
+    rfl
+  rw [e0, ok_bind, e2, ok_bind, e4, ok_bind, if_neg (by omega)]
+  have hs : sliceTo "lookup.go:210#subtableOffsets[:0]" prev 0 = .ok (prev.take 0) := by
+    unfold sliceTo
+    rw [if_pos (Nat.zero_le _)]
+  rw [hs, ok_bind]
+  have eso : readU16s "lookup.go:212#ReadUint16" b 1 (lp + 6) = .ok ([8], ⟨1, 0⟩) := by
+    have := readU16s_const "lookup.go:212#ReadUint16" b 0 8 1 (lp + 6) (fun j hj => by
+      have : j = 0 := by omega
+      subst this
+      exact ⟨h6, h7⟩)
+    exact this
+  rw [eso, ok_bind]
+  dsimp only
+  rw [if_neg (by decide), pure_bind_ok]
+  dsimp only
+  rw [mkSlice_ok _ _ _ (by omega), ok_bind]
+  unfold readSubs
+  rw [hsr, ok_bind]
+  dsimp only
+  rw [store_ok _ _ _ (by omega), ok_bind]
+  unfold readSubs
+  rw [ok_bind]
+  dsimp only
+  have hie : isExtension [v] = .ok none := by
+    unfold isExtension
+    rw [if_neg (by simp), idx_ok _ _ 0 (by simp), ok_bind]
+    cases v with
+    | ext _ _ => exact absurd True.intro hv
+    | other _ => rfl
+  rw [ok_bind]
+  dsimp only
+  rw [hie, ok_bind]
+  simp only [addCost, Cost.tick, Cost.mem, Cost.zero]
+  congr 3 <;> omega
+
+theorem readLookups_alias {σ : Type} (sr : Reader σ) (b : Bytes) (o N : Nat)
+    (v : SubV σ) (d : Cost) (hv : ¬ v.isExt)
+    (hb : ∀ k (hk : k < 8), b[o + k]? = some aliasRec[k])
+    (hsr : sr 1 (o + 8) = .ok (v, d)) :
+    ∀ (k i numL numS : Nat) (prev : List Nat), numL + numS + 2 * k ≤ 6000 → i + k ≤ N →
+    readLookups sr b 0 N (List.replicate k o) i numL numS prev =
+      .ok (List.replicate k ⟨1, 0, 0, [v]⟩, ⟨k * (3 + d.steps), k * (4 + d.alloc)⟩)
+  | 0, _, _, _, _, _, _ => by
+    simp only [List.replicate, readLookups, Nat.zero_mul]
+    rfl
+  | k+1, i, numL, numS, prev, h1, h2 => by
+    simp only [List.replicate]
+    unfold readLookups
+    rw [Nat.zero_add, readLookup_aliasRec sr b o numL numS prev v d hv hb (by omega) hsr, ok_bind]
+    dsimp only
+    rw [store_ok _ _ _ (by omega), ok_bind,
+      readLookups_alias sr b o N v d hv hb hsr k (i + 1) (numL + 1) (numS + 1) [8] (by omega) (by omega),
+      ok_bind]
+    simp only [addCost, Nat.succ_mul]
+
+/-- `n` lookup offsets, all pointing at ONE lookup record with one subtable, then `tail` (the
+subtable): 2·n + 10 + |tail| bytes -/
+def aliasBytes (n : Nat) (tail : Bytes) : Bytes :=
+  (UInt8.ofNat (n / 256) :: UInt8.ofNat (n % 256) ::
+    rep2 (UInt8.ofNat ((2 + 2 * n) / 256)) (UInt8.ofNat ((2 + 2 * n) % 256)) n) ++ (aliasRec ++ tail)
+
+theorem aliasBytes_length (n : Nat) (tail : Bytes) :
+    (aliasBytes n tail).length = 2 * n + 10 + tail.length := by
+  simp only [aliasBytes, List.length_append, List.length_cons, rep2_length, aliasRec, List.length_nil]
+  omega
+
+theorem be_ofNat (x : Nat) (h : x < 65536) : be (UInt8.ofNat (x / 256)) (UInt8.ofNat (x % 256)) = x := by
+  unfold be
+  simp only [UInt8.toNat_ofNat']
+  omega
+
+/-- **the aliasing family** (finding C02-gsub-lookup-alias as a theorem): for every `n ≤ 3000` the
+`2·n + 10 + |tail|` bytes `aliasBytes n tail` decode without error, and the ONE subtable (cost `d`) is
+decoded `n` times: the cost is `n·d`, not `d + O(|b|)`. -/
+theorem lookup_alias_cost {σ : Type} (sr : Reader σ) (n : Nat) (hn : n ≤ 3000) (tail : Bytes)
+    (v : SubV σ) (d : Cost) (hv : ¬ v.isExt) (hsr : sr 1 (2 + 2 * n + 8) = .ok (v, d)) :
+    readLookupList sr (aliasBytes n tail) 0 =
+      .ok (List.replicate n ⟨1, 0, 0, [v]⟩, ⟨1 + n + n * (3 + d.steps), 2 * n + n * (4 + d.alloc)⟩) := by
+  have hlen : (UInt8.ofNat (n / 256) :: UInt8.ofNat (n % 256) ::
+      rep2 (UInt8.ofNat ((2 + 2 * n) / 256)) (UInt8.ofNat ((2 + 2 * n) % 256)) n).length = 2 + 2 * n := by
+    simp only [List.length_cons, rep2_length]
+    omega
+  unfold readLookupList
+  rw [rd16_at (hi := UInt8.ofNat (n / 256)) (lo := UInt8.ofNat (n % 256)) (by simp [aliasBytes])
+    (by simp [aliasBytes]), ok_bind, be_ofNat n (by omega), mkSlice_ok _ _ _ (by omega), ok_bind]
+  rw [readU16s_const _ _ (UInt8.ofNat ((2 + 2 * n) / 256)) (UInt8.ofNat ((2 + 2 * n) % 256)) n (0 + 2)
+    (fun j hj => by
+      have hg := rep2_get (UInt8.ofNat ((2 + 2 * n) / 256)) (UInt8.ofNat ((2 + 2 * n) % 256)) n j hj
+      have e1 : 0 + 2 + 2 * j = 2 * j + 1 + 1 := by omega
+      rw [e1]
+      simp only [aliasBytes, List.cons_append, List.getElem?_cons_succ]
+      rw [List.getElem?_append_left (by rw [rep2_length]; omega),
+        List.getElem?_append_left (by rw [rep2_length]; omega)]
+      exact hg), ok_bind]
+  dsimp only
+  rw [be_ofNat _ (by omega), List.length_replicate, mkSlice_ok _ _ _ (by omega), ok_bind]
+  have hb : ∀ k (hk : k < 8), (aliasBytes n tail)[2 + 2 * n + k]? = some aliasRec[k] := by
+    intro k hk
+    unfold aliasBytes
+    rw [List.getElem?_append_right (by rw [hlen]; omega), hlen, Nat.add_sub_cancel_left,
+      List.getElem?_append_left (by simp [aliasRec]; omega)]
+    exact List.getElem?_eq_getElem _
+  rw [readLookups_alias sr _ (2 + 2 * n) n v d hv hb hsr n 0 0 0 [] (by omega) (by omega), ok_bind]
+  simp only [addCost, Cost.tick, Cost.mem, Cost.zero]
+  congr 3 <;> omega
+
+/-- hence NO bound of the form `alloc ≤ 4096·|b| + 2^24` (nor for steps) for the lookup list reader,
+even when every single subtable costs at most 65536 (e.g. one coverage table 0..65535): 6010
+bytes cost more than 196 million. -/
+theorem readLookupList_cost_not_linear :
+    ∃ (sr : Reader Unit) (b : Bytes), (∀ tp p, (sr tp p).noPanic) ∧
+      (∀ tp p v d, sr tp p = .ok (v, d) → d.steps ≤ 65536 ∧ d.alloc ≤ 65536) ∧
+      ∃ r c, readLookupList sr b 0 = .ok (r, c) ∧
+        ¬ c.alloc ≤ 4096 * b.length + 2 ^ 24 ∧ ¬ c.steps ≤ 4096 * b.length + 2 ^ 24 := by
+  refine ⟨fun _ _ => .ok (.other (), ⟨65536, 65536⟩), aliasBytes 3000 [], fun _ _ => True.intro, ?_, ?_⟩
+  · intro tp p v d h
+    cases h
+    exact ⟨Nat.le_refl _, Nat.le_refl _⟩
+  · refine ⟨_, _, lookup_alias_cost _ 3000 (by omega) [] (.other ()) ⟨65536, 65536⟩ (fun h => h) rfl, ?_, ?_⟩
+    · rw [aliasBytes_length]
+      simp only [List.length_nil]
+      omega
+    · rw [aliasBytes_length]
+      simp only [List.length_nil]
+      omega
+
+/-! ## cost of the instances -/
+
+/-- one dispatcher call: the format read, then either the extension record (2 steps, 1 object) or
+the selected subtable reader -/
+theorem dispatch_cost {σ : Type} (site : String) (keys : List Nat) (extKey : Nat)
+    (sub : SubReaders σ) (C : Nat)
+    (hsub : ∀ t f p v d, sub t f p = .ok (v, d) → d.steps ≤ C ∧ d.alloc ≤ C)
+    (b : Bytes) (tp pos : Nat) (v : SubV σ) (d : Cost)
+    (h : dispatch site keys extKey sub b tp pos = .ok (v, d)) :
+    (d.steps ≤ C + 2 ∧ d.alloc ≤ C + 2) ∧ (v.isExt → d.steps ≤ 2 ∧ d.alloc ≤ 2) := by
+  unfold dispatch at h
+  obtain ⟨format, _, h⟩ := bind_eq_ok h
+  dsimp only at h
+  split at h
+  · split at h
+    · obtain ⟨⟨v', d'⟩, hd, h⟩ := bind_eq_ok h
+      cases h
+      obtain ⟨_, hd', _⟩ := readExtensionSubtable_ok hd
+      subst hd'
+      simp only [Cost.tick]
+      omega
+    · obtain ⟨⟨v', d'⟩, hd, h⟩ := bind_eq_ok h
+      cases h
+      have := hsub _ _ _ _ _ hd
+      simp only [Cost.tick]
+      refine ⟨by omega, fun hx => absurd hx (fun hx => hx)⟩
+  · cases h
+
+/-- `gtab.Read` (GSUB): with `C` the maximal cost of an individual subtable reader,
+steps, alloc ≤ |b| + 6000·(C + 7) — and this is attained up to the constant (`lookup_alias_cost`) -/
+theorem readLookupList_gsub_cost {σ : Type} (sub : SubReaders σ) (C : Nat)
+    (hsub : ∀ t f p v d, sub t f p = .ok (v, d) → d.steps ≤ C ∧ d.alloc ≤ C)
+    (b : Bytes) (pos : Nat) (r : List (Lookup σ)) (c : Cost)
+    (h : readLookupList (gsubReader sub b) b pos = .ok (r, c)) :
+    c.steps ≤ b.length + 6000 * (C + 7) ∧ c.alloc ≤ b.length + 6000 * (C + 7) := by
+  have := readLookupList_cost' (gsubReader sub b) (C + 2) 2
+    (fun tp p v d hd => (dispatch_cost _ _ _ sub C hsub b tp p v d hd).1)
+    (fun tp p v d hd => (dispatch_cost _ _ _ sub C hsub b tp p v d hd).2) b pos r c h
+  have e : C + 2 + 2 + 3 = C + 7 := by omega
+  rw [e] at this
+  exact this
+
+theorem readLookupList_gpos_cost {σ : Type} (sub : SubReaders σ) (C : Nat)
+    (hsub : ∀ t f p v d, sub t f p = .ok (v, d) → d.steps ≤ C ∧ d.alloc ≤ C)
+    (b : Bytes) (pos : Nat) (r : List (Lookup σ)) (c : Cost)
+    (h : readLookupList (gposReader sub b) b pos = .ok (r, c)) :
+    c.steps ≤ b.length + 6000 * (C + 7) ∧ c.alloc ≤ b.length + 6000 * (C + 7) := by
+  have := readLookupList_cost' (gposReader sub b) (C + 2) 2
+    (fun tp p v d hd => (dispatch_cost _ _ _ sub C hsub b tp p v d hd).1)
+    (fun tp p v d hd => (dispatch_cost _ _ _ sub C hsub b tp p v d hd).2) b pos r c h
+  have e : C + 2 + 2 + 3 = C + 7 := by omega
+  rw [e] at this
+  exact this
+
+theorem hookReader_cost (b : Bytes) (extType tp pos : Nat) (v : SubV (Nat × Nat)) (d : Cost)
+    (h : hookReader refLeaf b extType tp pos = .ok (v, d)) : d.steps ≤ 2 ∧ d.alloc ≤ 2 := by
+  unfold hookReader at h
+  split at h
+  · obtain ⟨format, _, h⟩ := bind_eq_ok h
+    split at h
+    · cases h
+    · obtain ⟨⟨v', d'⟩, hd, h⟩ := bind_eq_ok h
+      cases h
+      obtain ⟨_, hd', _⟩ := readExtensionSubtable_ok hd
+      subst hd'
+      simp only [Cost.tick]
+      omega
+  · obtain ⟨⟨v', d'⟩, hd, h⟩ := bind_eq_ok h
+    cases h
+    unfold refLeaf at hd
+    cases hd
+    exact ⟨by decide, by decide⟩
+
+/-- the list reader ITSELF (the tied instance: subtables are not decoded) is linear:
+steps, alloc ≤ |b| + 42000 -/
+theorem readLookupList_hook_cost (b : Bytes) (extType pos : Nat) (r : List (Lookup (Nat × Nat)))
+    (c : Cost) (h : readLookupList (hookReader refLeaf b extType) b pos = .ok (r, c)) :
+    c.steps ≤ b.length + 42000 ∧ c.alloc ≤ b.length + 42000 :=
+  readLookupList_cost' (hookReader refLeaf b extType) 2 2
+    (fun tp p v d hd => hookReader_cost b extType tp p v d hd)
+    (fun tp p v d hd _ => hookReader_cost b extType tp p v d hd) b pos r c h
+
+/-! ## the finding: an extension record may resolve to another extension record
+
+`readLookupList` checks `tp == meta.LookupType` (extension → the SAME type) but not that the
+subtable decoded in the second pass is again an extension record.  With the real dispatchers this
+is reachable because the reader key `10*meta.LookupType+format` is computed in `uint16`:
+extension type 6560, format 7 gives key 65607 mod 65536 = 71 = `readExtensionSubtable` (likewise
+type 0 with format 71).  The 28-byte lookup list below (42 bytes as a GSUB table) is ACCEPTED and
+yields a lookup of type 6560 holding an `*extensionSubtable`, whose `apply` is
+`panic("unreachable")`: `Context.Apply` panics on the decoded table (checked on the real code:
+`total.lookuplist-apply table=gsub bytes=00010000000a000c000e00000000000100040007000000010008000119a0000000080007000100000000`). -/
+
+def extExtBytes : Bytes :=
+  [0, 1, 0, 4,                       -- one lookup at +4
+   0, 7, 0, 0, 0, 1, 0, 8,           -- type 7, no flags, one subtable at +8
+   0, 1, 0x19, 0xa0, 0, 0, 0, 8,     -- extension record: type 6560, offset 8
+   0, 7, 0, 1, 0, 0, 0, 0]           -- "type 6560 format 7" = key 71: an extension record again
+
+set_option maxRecDepth 20000 in
+theorem ext_ext_survives {σ : Type} (sub : SubReaders σ) :
+    ∃ c, readLookupList (gsubReader sub extExtBytes) extExtBytes 0 =
+      .ok ([⟨6560, 0, 0, [.ext 1 0]⟩], c) :=
+  ⟨_, rfl⟩
+
+/-- the uint16 wrap of the reader key: lookup type 6554 with format word 7 is decoded by the reader
+of GSUB 1.1 (key 11), type 0 with format 71 by `readExtensionSubtable` — not rejected as unknown -/
+theorem dispatch_key_wraps {σ : Type} (sub : SubReaders σ) (b : Bytes) (hb : rd16 "gsub.go:36#ReadUint16" b 0 = .ok 7) :
+    gsubReader sub b 6554 0 = (do let (v, d) ← sub 1 1 0; .ok (.other v, d.tick)) := by
+  unfold gsubReader dispatch
+  rw [hb, ok_bind]
+  rfl
+
+/-! ## non-vacuity -/
+
+/-- the decoded value, if any -/
+def value {α : Type} : Outcome (α × Cost) → Option α
+  | .ok (r, _) => some r
+  | _ => none
+
+/-- two lookups (the second an extension lookup resolving to type 2) through the tied reader -/
+example : value (readLookupList (hookReader refLeaf
+      [0, 2, 0, 6, 0, 14,  0, 1, 0, 0, 0, 1, 0, 20,  0, 7, 0, 16, 0, 1, 0, 10, 0, 5,
+       0, 1, 0, 2, 0, 0, 0, 8, 0, 1] 7)
+      [0, 2, 0, 6, 0, 14,  0, 1, 0, 0, 0, 1, 0, 20,  0, 7, 0, 16, 0, 1, 0, 10, 0, 5,
+       0, 1, 0, 2, 0, 0, 0, 8, 0, 1] 0) =
+    some [⟨1, 0, 0, [.other (26, 1)]⟩, ⟨2, 16, 5, [.other (32, 2)]⟩] := by decide +kernel
+
+example : readExtensionSubtable (σ := Unit) [9, 9, 0, 2, 0, 1, 0, 8] 2 = .ok (.ext 2 65544, ⟨1, 1⟩) := by
+  decide +kernel
+
+example : gsubReader (σ := Unit) (fun _ _ _ => .ok ((), ⟨5, 5⟩)) [0, 1, 0, 6] 4 0 =
+    .ok (.other (), ⟨6, 5⟩) := by decide +kernel
+
+example : gposReader (σ := Unit) (fun _ _ _ => .ok ((), ⟨5, 5⟩)) [0, 1, 0, 2, 0, 0, 0, 8] 9 0 =
+    .ok (.ext 2 8, ⟨2, 1⟩) := by decide +kernel
+
+/-- an unknown (type, format) is an error -/
+example : gsubReader (σ := Unit) (fun _ _ _ => .ok ((), ⟨5, 5⟩)) [0, 2, 0, 6] 4 0 = .err "invalid" := by
+  decide +kernel
 
 end SfntV.Total.LookupList
